@@ -12,7 +12,9 @@ def main() -> int:
     cmd = rec.get("native_cmd") or rec.get("cmd")
     if cmd:
         print("$", cmd)
-        r = subprocess.run(cmd, shell=True, check=False)
+        import os
+
+        r = subprocess.run(cmd, shell=True, check=False, env={**os.environ, "REPLAY_FILE": os.path.abspath(sys.argv[1])})
         return 1 if r.returncode else 0
     print("no concrete failing input was found; solver output follows")
     print(json.dumps(rec.get("model"), indent=1))
